@@ -265,6 +265,18 @@ impl Chain {
         r.map(|v| v.iter().map(|x| (id_of(&x.address), x.total_delegated.u128())).collect()).unwrap_or_default()
     }
 
+    /// the validators the registry *stores* (its REGISTRY map), not what its list query answers
+    pub fn reg_stored(&self) -> Vec<Id> {
+        match self.stores.get(&REG) {
+            Some(st) => basset_sei_validators_registry::registry::REGISTRY
+                .range(st, None, None, cosmwasm_std::Order::Ascending)
+                .filter_map(|r| r.ok())
+                .map(|(_, v)| id_of(&v.address))
+                .collect(),
+            None => vec![],
+        }
+    }
+
     pub fn observe(&self) -> String {
         let j = |v: Vec<String>| v.join(",");
         let s8 = |a: [u128; 8]| a.iter().map(|x| x.to_string()).collect::<Vec<_>>().join(",");
